@@ -96,6 +96,12 @@ PROPS = {
                         'WalkEntry::{metadata, file_type, follow, path_is_symlink, depth, path} as in unit entry'],
         'not_decided': ['%f %h %H %P (std::path component algebra; the statement\'s "%H as given" and "%H/%P recompose %p" conflict for a starting point spelled dir/)', 'time directives (chrono), %u %g (name lookup), %b %k %S %D %F %l %M', 'an unknown directive letter %X is rendered as X (the statement is silent)'],
     },
+    'C11': {
+        'level': 'other',
+        'explanation': 'Panic freedom and termination for every argument vector of the parsing code that Verus verifies on the real text: build_matcher_tree (whole function after the R10 skeleton rule: every index, subtraction, unreachable!, the -exec scan loop, the ( recursion), are_more_expressions, the -printf format parser, the glob bracket scanner, the numeric operand parsers, Unit::from_str, type parse; rejection: Ok from build_matcher_tree implies the token sequence is a sentence of the reference grammar fold_from (operators never follow operators or !, no empty or unbalanced parentheses, every primary has its operands).',
+        'assumptions': ['constructors of the primaries replaced by verif_prim (R10): their own panics are outside this unit (Printf::new, glob Pattern::new and the operand parsers are covered by units printfparse, glob/globscan, numeric)', 'argument vectors are shorter than usize::MAX/2', 'dependencies (onig, regex, chrono, uucore, walkdir, clap) do not panic'],
+        'not_decided': ['parse_args, do_find, find_main ordering (unit walk)', "run-time I/O errors of actions (out.flush().unwrap())", '-newerXY accepts leading garbage (known finding D20)'],
+    },
 }
 for k in PROPS.values():
     k.setdefault('trusted', [])
